@@ -26,6 +26,8 @@ enum Case {
     Params { suite: String },
     /// n = 65535 boundary (thorough)
     Huge { suite: String },
+    /// a few hundred participants, thresholds 2 and 40 (quick too)
+    Big { suite: String, n: u16, t: u16, seed: String },
     /// all keys x all coefficient vectors on the tiny field
     Tiny { q: u64, n: u16, t: u16, idmask: u32 },
 }
@@ -85,6 +87,11 @@ impl Prop for C06 {
         for suite in REAL_SUITES {
             out.push(serde_json::to_value(Case::Params { suite: suite.to_string() }).unwrap());
         }
+        for suite in REAL_SUITES {
+            let big = if suite == "ed448" { 120u16 } else { 300u16 };
+            out.push(serde_json::to_value(Case::Big { suite: suite.to_string(), n: big, t: 2, seed: format!("s{seed}") }).unwrap());
+            out.push(serde_json::to_value(Case::Big { suite: suite.to_string(), n: 60, t: 40, seed: format!("s{seed}") }).unwrap());
+        }
         if tier == Tier::Thorough {
             for suite in ["ed25519", "secp256k1"] {
                 out.push(serde_json::to_value(Case::Huge { suite: suite.to_string() }).unwrap());
@@ -111,7 +118,7 @@ impl Prop for C06 {
     fn run(&self, case: &Value) -> Outcome {
         let c: Case = serde_json::from_value(case.clone()).expect("case");
         match &c {
-            Case::Group { suite, .. } | Case::Params { suite } | Case::Huge { suite } => {
+            Case::Group { suite, .. } | Case::Params { suite } | Case::Huge { suite } | Case::Big { suite, .. } => {
                 with_suite!(suite.as_str(), run_real, &c)
             }
             Case::Tiny { q, .. } => match q {
@@ -129,6 +136,7 @@ fn run_real<C: Suite>(c: &Case) -> Outcome {
         Case::Group { n, t, idkind, src, seed, .. } => run_group::<C>(*n, *t, *idkind, *src, seed),
         Case::Params { .. } => run_params::<C>(),
         Case::Huge { .. } => run_huge::<C>(),
+        Case::Big { n, t, seed, .. } => run_big::<C>(*n, *t, seed),
         _ => unreachable!(),
     }
 }
@@ -423,6 +431,60 @@ fn run_params<C: Suite>() -> Outcome {
         }
     }
     o.class("params");
+    o
+}
+
+fn run_big<C: Suite>(n: u16, t: u16, seed: &str) -> Outcome {
+    let mut o = Outcome::new();
+    let tag = format!("C06/{}", C::name());
+    let ctx = format!("big n={n} t={t}");
+    o.eval(true);
+    let mut rng = ScriptedRng::ctr(format!("big:{seed}"));
+    match C::w_generate_with_dealer(n, t, IdentifierList::Default, &mut rng) {
+        Ok((shares, pkp)) => {
+            if shares.len() != n as usize || pkp.verifying_shares().len() != n as usize || pkp.min_signers() != Some(t) {
+                o.fail(format!("{tag}/big-counts"), ctx.clone());
+            }
+            let vk = pkp.verifying_key().to_element();
+            let mut kps = vec![];
+            for (id, sh) in &shares {
+                let ce = commitment_elems::<C>(sh.commitment());
+                if ce.len() != t as usize || ce[0] != vk {
+                    o.fail(format!("{tag}/commitment-length"), ctx.clone());
+                    break;
+                }
+                match KeyPackage::<C>::try_from(sh.clone()) {
+                    Ok(kp) => {
+                        if Some(kp.verifying_share()) != pkp.verifying_shares().get(id) || kp.verifying_share().to_element() != gen_mul::<C>(kp.signing_share().to_scalar()) {
+                            o.fail(format!("{tag}/key-package-inconsistent"), format!("{ctx}: id {}", id_short::<C>(id)));
+                            break;
+                        }
+                        kps.push(kp);
+                    }
+                    Err(e) => {
+                        o.fail(format!("{tag}/honest-share-rejected"), format!("{ctx}: id {}: {e:?}", id_short::<C>(id)));
+                        break;
+                    }
+                }
+            }
+            // the last t key packages reconstruct the key, the last t-1 (lowered) do not
+            if kps.len() == n as usize {
+                let last: Vec<_> = kps.iter().rev().take(t as usize).cloned().collect();
+                match C::w_reconstruct(&last) {
+                    Ok(k) => {
+                        if gen_mul::<C>(k.to_scalar()) != vk {
+                            o.fail(format!("{tag}/t-subset-wrong-key"), ctx.clone());
+                        } else {
+                            o.count("t_subsets_reconstructed", 1);
+                        }
+                    }
+                    Err(e) => o.fail(format!("{tag}/t-subset-refused"), format!("{ctx}: {e:?}")),
+                }
+            }
+        }
+        Err(e) => o.fail(format!("{tag}/keygen-failed"), format!("{ctx}: {e:?}")),
+    }
+    o.class("big");
     o
 }
 
